@@ -1,6 +1,8 @@
 package main
 
 import (
+	"os"
+	"runtime/debug"
 	"fmt"
 	"go/types"
 	"sort"
@@ -420,6 +422,9 @@ func (e *Env) ident(name string) Term {
 			}
 		}
 	}
+	if os.Getenv("GOVC_DEBUG") != "" && e.fr != nil {
+		fmt.Fprintf(os.Stderr, "DEBUG unknown ident %s in frame %s freeVars=%d depth=%d\n%s\n", name, funcKey(e.fr.fn), len(e.fr.freeVars), e.fr.depth, debug.Stack())
+	}
 	e.fail("unknown identifier %q", name)
 	return Term{}
 }
@@ -696,7 +701,9 @@ func (e *Env) quant(q SQuant) Term {
 			guards = append(guards, fc.typeInv(t, st.T, 0))
 		}
 	}
+	fc.inQuant++
 	body := env.eval(q.Body)
+	fc.inQuant--
 	g := tAnd(guards...)
 	if q.Forall {
 		return mk(fmt.Sprintf("(forall (%s) %s)", strings.Join(binders, " "), tImp(g, body).S), SBool, nil)
@@ -902,6 +909,24 @@ func (e *Env) call(c SCall) Term {
 	case "addr":
 		// addr(x.f): the address of field f (for aggregate fields x.f already denotes its address)
 		if len(c.Args) == 1 {
+			if ie, ok := c.Args[0].(SIndex); ok {
+				// addr(s[i]): the address of element i of slice s
+				base := e.eval(ie.X)
+				if base.Sort == SSlice {
+					i := e.eval(ie.I)
+					var et types.Type
+					if sl, ok := typeOrNil(base.T).(*types.Slice); ok {
+						et = types.NewPointer(sl.Elem())
+					} else if base.T != nil {
+						if sl, ok := base.T.Underlying().(*types.Slice); ok {
+							et = types.NewPointer(sl.Elem())
+						}
+					}
+					r := pElem(slArr(base), mk(fmt.Sprintf("(ix (sl_off %s) %s)", base.S, i.S), SInt, nil))
+					r.T = et
+					return r
+				}
+			}
 			if sel, ok := c.Args[0].(SSel); ok {
 				base := e.eval(sel.X)
 				if pt, ok := typeOrNil(base.T).(*types.Pointer); ok {
@@ -920,6 +945,11 @@ func (e *Env) call(c SCall) Term {
 			}
 		}
 		return args()[0]
+	case "unboxptr":
+		// unboxptr(i): the pointer-like value (pointer, channel, map) held by interface value i
+		a := args()[0]
+		_, unbox := fc.boxFuncs(SPtr)
+		return mk(fmt.Sprintf("(%s (i_val %s))", unbox, a.S), SPtr, nil)
 	case "isBox":
 		// isBox(p): p points to a whole allocation (a variable or a new(T)), not into a field
 		// or an element of another object
@@ -990,6 +1020,10 @@ func (fc *FnCtx) specCall(sf *SpecFunc, args []Term, e *Env) Term {
 		pt := fc.resolveType(sf.Pkg, sf.Params[i].Type)
 		if a.Sort == "Nil" {
 			a = e.nilOf(mk("", pt.Sort, pt.T))
+		}
+		if a.Sort == SPtr && pt.T != nil && strings.HasPrefix(pt.Sort, "S_") {
+			// a struct-typed parameter: the argument denotes the struct's location, pass its value
+			a = fc.loadVal(e.st, a, pt.T)
 		}
 		as = append(as, a.S)
 		if et, ok := viewElem(pt); ok {
